@@ -8,6 +8,9 @@ CFG = {
         "Leptos.Url.C15_path_param_once",
         "Leptos.Url.C15_path_param_lossy",
         "Leptos.Url.C15_query_roundtrip",
+        "Leptos.Url.C15_nested_params_once",
+        "Leptos.Url.C15_nested_params_eq_flat",
+        "Leptos.Url.C15_nested_double_decode_witness",
         "Leptos.Url.C15_double_decode_witness",
         "Leptos.Url.C15_panic_witness",
         "Leptos.Url.C15_path_param_panic_witness",
@@ -21,7 +24,7 @@ CFG = {
     "n": {"quick": 6000, "thorough": 400000},
     "rule": "seeded generator over request targets built from percent-escape atoms (valid/invalid UTF-8, "
             "encoded % + & = #, double-encoded), arbitrary-Unicode strings for escape/roundtrip, raw path "
-            "segments; a case is one op; distinct = distinct op line; non-trivial = every generated op "
+            "segments, the same segments and queries through a server-rendered <Router> app (flat and nested routes, use_params_map/use_query_map); a case is one op; distinct = distinct op line; non-trivial = every generated op "
             "(each contains at least one string position)",
     "trusted": [
         "url crate: URL parser outside the query component (the model takes the text after the first '?' up to '#'); "
@@ -29,14 +32,17 @@ CFG = {
         "percent-encoding crate (modelled: pctDecode / escape), core::str UTF-8 validation and from_utf8_lossy (modelled: utf8Next)",
     ],
     "modelled": ["Url::escape", "Url::unescape", "ParamsMap::insert/to_query_string/FromIterator", "RequestUrl::parse (query part)",
-                 "ParamSegment + ParamsMap::insert as the routers combine them"],
+                 "ParamSegment + ParamsMap::insert as the routers combine them",
+                 "nested_router.rs params_including_parents (merge of the matched routes' decoded maps)",
+                 "hooks.rs use_params_map / use_query_map as seen by a view of a server-rendered <Router> application "
+                 "(<FlatRoutes>, and <Routes> with <ParentRoute>)"],
     "assumptions": ["request targets without ASCII whitespace/control characters and backslashes (the url crate strips/rewrites those before the query is seen)"],
     "manifest": {
         "category": "proof",
         "text": "Lean 4 theorems over all byte strings and all parameter maps (no size bound): escape/unescape round-trip, query values are the "
                 "once-decoded pairs grouped by key with multiplicity and order, path parameters are decoded once (lossily, never a panic), "
-                "to_query_string followed by parsing is the identity on maps; totality is carried by the model functions being total after the two "
-                "repairs (fix: commits 8fe4d25, 879e1a0 in /repo; the pre-repair behaviour is kept as *Old definitions with kernel-checked regression "
+                "to_query_string followed by parsing is the identity on maps; totality is carried by the model functions being total after the three "
+                "repairs (fix: commits 8fe4d25, 879e1a0, 36ea226 in /repo; the pre-repair behaviour is kept as *Old definitions with kernel-checked regression "
                 "witnesses). Tied to the code by a differential run of the real RequestUrl/ParamsMap/Url/ParamSegment against the compiled model.",
         "design_ref": "DESIGN.md §7 C15",
         "note": "model hand-written, faithfulness checked by correspondence on generated inputs; url crate parser trusted outside the query component",
